@@ -98,6 +98,40 @@ fn calendar_case(lo: u64, hi: u64, op: &str, probe: i64) -> i32 {
     if matches && !kept { 3 } else { 0 }
 }
 
+/// F-C09-a: TOTAL / AVG / MIN / MAX of a u64 field on the segment tier vs the memory tier.
+fn agg_u64(value: u64) -> i32 {
+    use snel_db::engine::core::read::aggregate::ops::AggregatorImpl;
+    use snel_db::engine::core::read::aggregate::plan::AggregateOpSpec;
+    use snel_db::engine::core::read::cache::DecompressedBlock;
+    use snel_db::engine::core::{ColumnValues, EventBuilder};
+    use snel_db::engine::types::ScalarValue;
+    use std::collections::HashMap;
+    use std::sync::Arc;
+    let mut rc = 0;
+    for spec in [
+        AggregateOpSpec::Total { field: "x".into() },
+        AggregateOpSpec::Avg { field: "x".into() },
+        AggregateOpSpec::Min { field: "x".into() },
+        AggregateOpSpec::Max { field: "x".into() },
+    ] {
+        let block = Arc::new(DecompressedBlock::from_bytes(value.to_le_bytes().to_vec()));
+        let mut cols = HashMap::new();
+        cols.insert("x".to_string(), ColumnValues::new_typed_u64(block, 0, 1, None));
+        let mut seg = AggregatorImpl::from_spec(&spec);
+        seg.update(0, &cols);
+        let mut b = EventBuilder::new();
+        b.payload.insert("x".to_string(), ScalarValue::Int64(value as i64));
+        let ev = b.build();
+        let mut mem = AggregatorImpl::from_spec(&spec);
+        mem.update_from_event(&ev);
+        println!("{spec:?} over a u64 field holding {value}: segment tier {:?}, memory tier {:?}", seg.finalize(), mem.finalize());
+        if seg.finalize() != mem.finalize() {
+            rc = 3;
+        }
+    }
+    rc
+}
+
 /// Validates the hand-built trie arrays of the Kani harness (kani/src/c08_trie.rs, included
 /// verbatim) against the real builder for every pair of 3-byte keys over a small alphabet.
 mod trie_shapes {
@@ -150,6 +184,7 @@ fn main() {
     let code = match args.get(1).map(|s| s.as_str()) {
         Some("parse") if args.len() >= 3 => parse_case(&args[2]),
         Some("triecheck") => triecheck(),
+        Some("aggu64") if args.len() >= 3 => agg_u64(args[2].parse().unwrap()),
         Some("calendar") if args.len() >= 6 => calendar_case(args[2].parse().unwrap(), args[3].parse().unwrap(), &args[4], args[5].parse().unwrap()),
         Some("stringcell") if args.len() >= 3 => stringcell(&args[2]),
         Some("surf") if args.len() >= 6 => surf_case(
